@@ -548,7 +548,6 @@ VCase gen_chain() {
   default:
     C0 = 1e14 * std::pow(10., vr::uni(-1., 1.));
   }
-  const bool down = (kind == 0 || kind == 2);
   const double J0 = C0 * na;
   if (kind <= 1)
     c.D("JH", J0);
@@ -556,7 +555,6 @@ VCase gen_chain() {
     for (auto &p : c.dd)
       if (p.first == "JH")
         p.second[0] = J0;
-  (void)down;
   const int K = (int)vr::irange(3, 8);
   std::vector<double> f(K);
   f[0] = 1.;
@@ -581,7 +579,6 @@ VCase gen_chain() {
   c.I("kind", kind);
   return c;
 }
-
 
 // (4) the call site of the task-based algorithm: a whole subgrid, the
 //     normalisation L / (total weight * cell volume) computed by the code, the
